@@ -19,8 +19,9 @@ META = {
             "question/RR parsing, RDATA validation, all nine typed decoders, encodeName/buildQuery) and of DnsCache over "
             "ExpiringCache: exact decoding of every RFC-1035-shaped (compressed) name, totality and in-bounds reads for "
             "arbitrary bytes for the whole parser, loops/out-of-range pointers are errors, encode/decode and query round "
-            "trips, cache soundness for every history. One statement is refuted with a witness (legitimate A/AAAA/TXT data "
-            "rejected by the 'malicious pointer' heuristic) and recorded as a known finding. Tied to the code by running "
+            "trips, cache soundness for every history. One statement is refuted with a witness (A records such as "
+            "192.0.0.0 rejected by the 'malicious pointer' heuristic, which the repository's own tests pin) and recorded as a "
+            "known finding; the same heuristic no longer rejects AAAA / TXT data (C19-F4c repaired). Tied to the code by running "
             "model and implementation on the same generated messages / histories every run.",
     "design_ref": "DESIGN.md §7 C19",
     "note": "Trusted: Coq kernel; extraction + OCaml driver; harness/c19_impl.cpp (private statics via #define private "
@@ -87,7 +88,10 @@ def gen_record(rng, tricky=False):
     if ty == T_A:
         rec["addr"] = bytes([rng.randrange(0, 256) if tricky else rng.randrange(0, 0xC0)]) + bytes(rng.getrandbits(8) for _ in range(3))
     elif ty == T_AAAA:
-        rec["addr"] = bytes(rng.getrandbits(8) for _ in range(16)) if tricky else safe_bytes(rng, 15) + bytes([rng.getrandbits(8)])
+        # any 16 octets (fe80::1, fd00::, 2001:db8::c0a8:1 ...): bytes >= 0xC0 are ordinary address bytes
+        rec["addr"] = rng.choice([bytes.fromhex("fe80" + "00" * 13 + "01"), bytes.fromhex("fd00" + "00" * 13 + "01"),
+                                  bytes.fromhex("20010db8" + "00" * 8 + "c0a80001")]) if rng.random() < 0.3 \
+            else bytes(rng.getrandbits(8) for _ in range(16))
     elif ty == T_SRV:
         rec.update(prio=rng.getrandbits(16), weight=rng.getrandbits(16), port=rng.getrandbits(16), target=rand_name(rng))
     elif ty == T_NAPTR:
@@ -100,10 +104,9 @@ def gen_record(rng, tricky=False):
         rec.update(pref=rng.getrandbits(16), target=rand_name(rng))
     elif ty == T_TXT:
         k = rng.choice([0, 1, 1, 2, 3])
-        if tricky:
-            rec["texts"] = [bytes(rng.getrandbits(8) for _ in range(rng.randint(0, 20))) for _ in range(k)]
-        else:
-            rec["texts"] = [safe_bytes(rng, rng.randint(0, 20)) for _ in range(k)]
+        # character-strings are opaque octets: UTF-8 text, bytes >= 0xC0 included
+        rec["texts"] = [rng.choice(["héllo wörld".encode(), "日本語".encode(), b"v=spf1 -all"]) if rng.random() < 0.2
+                        else bytes(rng.getrandbits(8) for _ in range(rng.randint(0, 20))) for _ in range(k)]
     elif ty == T_SOA:
         rec.update(mname=rand_name(rng), rname=rand_name(rng), serial=rng.getrandbits(32), refresh=rng.getrandbits(32),
                    retry=rng.getrandbits(32), expire=rng.getrandbits(32), minimum=rng.getrandbits(32))
@@ -210,12 +213,6 @@ def trips_heuristic(m):
             if rec["type"] == T_A:
                 a = rec["addr"]
                 if a[0] & 0xC0 == 0xC0 and (((a[0] & 0x3F) << 8) | a[1]) < 64 and a[2] == 0 and a[3] == 0:
-                    return True
-            if rec["type"] == T_AAAA and any(b & 0xC0 == 0xC0 for b in rec["addr"][:-1]):
-                return True
-            if rec["type"] == T_TXT:
-                raw = b"".join(bytes([len(s)]) + s for s in rec["texts"])
-                if any(b & 0xC0 == 0xC0 for b in raw[:-1]):
                     return True
     return False
 
